@@ -485,6 +485,30 @@ Section PsiProofs.
     exists later, fst (bob_run p sb (inc ++ more)) = fst (bob_run p sb inc) ++ later.
   Proof. repeat mono_step. Qed.
 
+  (** A sink that accepts only [k] messages: the side does exactly what it would do otherwise,
+      up to the first refused send, which is reported as [Sink]. *)
+  Theorem alice_sink_failure k p sa inc :
+    alice_run_k topic half teqb H k p sa inc = with_sink topic half k (alice_run p sa inc).
+  Proof.
+    unfold Psi.with_sink.
+    destruct inc as [|[[a|b hs|hs|i]|] rest]; cbn [Psi.alice_run_k Psi.alice_run fst length];
+      try (destruct k as [|[|[|k]]]; reflexivity).
+    destruct rest as [|[[a'|b' hs'|hs'|i']|] rest']; cbn [fst length];
+      destruct k as [|[|[|k]]]; reflexivity.
+  Qed.
+
+  Theorem bob_sink_failure k p sb inc :
+    bob_run_k topic half teqb H k p sb inc = with_sink topic half k (bob_run p sb inc).
+  Proof.
+    unfold Psi.with_sink.
+    destruct inc as [|[[a|b hs|hs|i]|] rest]; cbn [Psi.bob_run_k Psi.bob_run fst length];
+      try (destruct k as [|[|[|k]]]; reflexivity).
+    destruct rest as [|[[a'|b' hs'|hs'|i']|] rest']; cbn [fst length];
+      try (destruct k as [|[|[|k]]]; reflexivity).
+    destruct rest' as [|[[a''|b'' hs''|hs''|i'']|] rest'']; cbn [fst length];
+      destruct k as [|[|[|k]]]; reflexivity.
+  Qed.
+
   (** The session is closed: each side's messages and outcome are its reaction to exactly the
       messages the other side sent. *)
   Theorem session_closed pa pb sa sb :
